@@ -535,7 +535,14 @@ fn fam_malformed(_t: Tier) -> BoxedStrategy<Case> {
                     pre.push_str(&format!("<var cyc{}=\"\\$cyc{}\"/>", i, (i + 1) % n));
                 }
             }
-            let ctx = match ws % 4 {
+            let ctx = match (ws >> 8) % 8 {
+                // (a condition is a condition whether or not there is anything to render under it)
+                4 => format!("<if test=\"{expr}\"/><rect wh=\"2\"/>"),
+                5 => format!("<if test=\"{expr}\"></if><rect wh=\"2\"/>"),
+                // (loops whose body renders nothing; a loop element without any content is skipped as a whole - there is no
+                // pass whose condition could be evaluated - and is not generated)
+                6 => format!("<loop while=\"{expr}\"><var z=\"1\"/></loop><rect wh=\"2\"/>"),
+                7 => format!("<loop count=\"{{{{{expr}}}}}\"><!-- nothing --></loop><rect wh=\"2\"/>"),
                 0 => format!("<rect wh=\"2\" text=\"{{{{{expr}}}}}\"/>"),
                 1 => format!("<rect xy=\"{{{{{expr}}}}} 0\" wh=\"2\"/>"),
                 2 => format!("<var q=\"{{{{{expr}}}}}\"/><rect wh=\"2\"/>"),
